@@ -475,6 +475,9 @@ pub struct Case {
     pub seps: usize,
     /// Some(index into the safe-word pool): render as `name = expr`
     pub assign: Option<u32>,
+    /// evaluate under the Turkish language tag (arithmetic does not depend on words)
+    #[serde(default)]
+    pub tr: bool,
 }
 
 pub fn render_case(c: &Case) -> (Cfg, Vec<Tok>, String) {
@@ -519,10 +522,12 @@ impl Prop for Arith {
         if has_date_triple(&line, cfg.dec(), cfg.thou()) {
             return Verdict::skip("quotient chain reads as a date (by design, C09)", line);
         }
-        let slot = match w.eval1(&cfg, "en", &line) {
+        let lang = if c.tr { "tr" } else { "en" };
+        let slot = match w.eval1(&cfg, lang, &line) {
             Ok(s) => s,
             Err(e) => return Verdict::fail(e, line),
         };
+        let line = if c.tr { format!("[tr] {}", line) } else { line };
         let mut acc = Acc::new();
         match &slot {
             Slot::Ok { v: V::Num(got, NT::Decimal), .. } => {
@@ -612,9 +617,40 @@ pub fn expr_strategy(depth: u32, size: u32) -> impl Strategy<Value = E> {
     })
 }
 
+/// deeply nested expressions: a small tree wrapped 10-160 times, either in redundant parentheses or in
+/// `( <inner> op literal )` layers ("parentheses nested to any depth")
+pub fn deep_strategy() -> impl Strategy<Value = Case> {
+    let small = prop::sample::select(vec![1.0f64, 2.0, 3.0, 0.5, 10.0]);
+    (expr_strategy(2, 4), 10usize..160, 0u8..4, small, any::<bool>(), prop::option::weighted(0.2, any::<u32>()), any::<bool>()).prop_map(|(base, k, pattern, lit, blank, assign, neg)| {
+        let mut e = base;
+        for i in 0..k {
+            e = match pattern {
+                0 => E::Paren(Box::new(e)),
+                1 => E::Paren(Box::new(E::Bin(Op::Add, false, Box::new(e), Box::new(E::Lit(Lit::plain(lit)))))),
+                2 => E::Paren(Box::new(E::Bin(if i % 2 == 0 { Op::Mul } else { Op::Sub }, false, Box::new(E::Lit(Lit::plain(lit))), Box::new(e)))),
+                _ => {
+                    if neg && i % 7 == 3 {
+                        E::Sign(true, Box::new(E::Paren(Box::new(e))))
+                    } else {
+                        E::Paren(Box::new(E::Bin(Op::Add, false, Box::new(E::Bin(Op::Mul, false, Box::new(e), Box::new(E::Lit(Lit::plain(1.0))))), Box::new(E::Lit(Lit::plain(1.0))))))
+                    }
+                }
+            };
+        }
+        Case { e, spaces: vec![if blank { 1 } else { 0 }; 8], seps: 0, assign, tr: false }
+    })
+}
+
 pub fn case_strategy(depth: u32, size: u32) -> impl Strategy<Value = Case> {
+    (case_strategy_en(depth, size), prop::bool::weighted(0.15)).prop_map(|(mut c, tr)| {
+        c.tr = tr;
+        c
+    })
+}
+
+fn case_strategy_en(depth: u32, size: u32) -> impl Strategy<Value = Case> {
     (expr_strategy(depth, size), prop::collection::vec(prop_oneof![5 => Just(0u8), 4 => Just(1u8), 1 => Just(2u8), 1 => Just(3u8)], 0..80), prop_oneof![3 => Just(0usize), 1 => 1usize..4], prop::option::weighted(0.2, any::<u32>()))
-        .prop_map(|(e, spaces, seps, assign)| Case { e, spaces, seps, assign })
+        .prop_map(|(e, spaces, seps, assign)| Case { e, spaces, seps, assign, tr: false })
 }
 
 /// all trees with <= 3 operators over the literal set {2,3,5,7} (shape-exhaustive), one spacing
@@ -670,7 +706,7 @@ pub fn small_table() -> Vec<Case> {
                     let e = fill(&sh, &ops, &lits, &mut oi, &mut li, code);
                     for sp in 0..2u8 {
                         for assign in [None, Some(7u32 << 24)] {
-                            out.push(Case { e: e.clone(), spaces: vec![sp; 40], seps: 0, assign });
+                            out.push(Case { e: e.clone(), spaces: vec![sp; 40], seps: 0, assign, tr: false });
                         }
                     }
                 }
@@ -738,7 +774,7 @@ pub fn regression_table() -> Vec<Case> {
     for t in trees {
         for sp in 0..2u8 {
             for assign in [None, Some(3u32 << 26)] {
-                out.push(Case { e: (*t).clone(), spaces: vec![sp; 40], seps: 0, assign });
+                out.push(Case { e: (*t).clone(), spaces: vec![sp; 40], seps: 0, assign, tr: false });
             }
         }
     }
@@ -746,7 +782,7 @@ pub fn regression_table() -> Vec<Case> {
 }
 
 pub fn run(ctx: &Ctx) {
-    ctx.rule("generated: expression trees over decimal literals (integers, fractions, attached signs, k..Y suffixes, thousands groups), + - * /, redundant and required parentheses, detached sign prefixes on literals and groups, juxtaposed literals, 0-3 blanks per gap, 4 separator conventions, optionally as the right-hand side of an assignment; oracle = reference evaluator over the tree (f64, x/0=0), tolerance 1e-9 relative; non-trivial = DISTINGUISHING: the reference value differs from at least one wrong reading of the same tokens (no precedence / right-associative / parentheses ignored); distinct = distinct rendered line + configuration");
+    ctx.rule("generated: expression trees over decimal literals (integers, fractions, attached signs, k..Y suffixes, thousands groups), + - * /, redundant and required parentheses, detached sign prefixes on literals and groups, juxtaposed literals, 0-3 blanks per gap, 4 separator conventions, optionally as the right-hand side of an assignment, under the language tags en and tr; plus trees wrapped 10-160 levels deep in parentheses (redundant, or `(inner op literal)` layers, with group signs); oracle = reference evaluator over the tree (f64, x/0=0), tolerance 1e-9 relative; non-trivial = DISTINGUISHING: the reference value differs from at least one wrong reading of the same tokens (no precedence / right-associative / parentheses ignored); distinct = distinct rendered line + configuration");
     ctx.assume("a quotient chain NUM / NUM / NUM whose operands read as a valid day/month/year is a date by design and is excluded (counted under excluded)");
     ctx.assume("juxtaposition is generated between two literals only; a sign prefix applies to a literal (possibly carrying its own attached sign) or to a parenthesised group");
     ctx.run_table(&Arith, "regressions", regression_table(), false);
@@ -756,6 +792,7 @@ pub fn run(ctx: &Ctx) {
         crate::engine::Tier::Thorough => (8, 40),
     };
     ctx.run_generated(&Arith, ctx.tier.pick(200_000, 2_000_000), || case_strategy(d, s));
+    ctx.run_generated(&Arith, ctx.tier.pick(4_000, 40_000), deep_strategy);
 }
 
 pub fn replay(w: &mut Worker, sub: &str, case: &serde_json::Value) -> Option<Verdict> {
